@@ -252,6 +252,13 @@ const ProgramScript* ScriptMaster::GetProgramScript(const StringResolvable& scri
     ProgramScript* const scr = FindScript(constScriptName);
     if (scr && !recompile)
     {
+        if (!scr->IsCompileSuccess())
+        {
+            throw ScriptException(
+                "Script '" + scriptName.GetString(GetDictionary()) + "' was not properly loaded"
+            );
+        }
+
         return scr;
     }
     else
